@@ -148,6 +148,12 @@ func (s *Writer) loadSnapshots() (lastPersistedEpoch, nextSnapshotEpoch uint64, 
 	for i := len(snapshotEpochs) - 1; i >= 0; i-- {
 		snapshotEpoch := snapshotEpochs[i]
 		snapshotsFound = true
+		// never hand out the epoch of a snapshot that is on disk, even one
+		// that cannot be loaded now: the snapshots written from here on must
+		// be the newest ones at the next open
+		if snapshotEpoch >= nextSnapshotEpoch {
+			nextSnapshotEpoch = snapshotEpoch + 1
+		}
 		var indexSnapshot *Snapshot
 		indexSnapshot, err = s.loadSnapshot(snapshotEpoch)
 		if err != nil {
@@ -158,7 +164,6 @@ func (s *Writer) loadSnapshots() (lastPersistedEpoch, nextSnapshotEpoch uint64, 
 		snapshotLoaded = true
 
 		lastPersistedEpoch = indexSnapshot.epoch
-		nextSnapshotEpoch = indexSnapshot.epoch + 1
 
 		// inform the deletion policy about this commit
 		s.deletionPolicy.Commit(indexSnapshot)
